@@ -44,6 +44,42 @@ def capture_closures(ctx):
     raise Unsupported("_generate_graphs did not reach the vmapped episode function")
 
 
+class MinimalDelaySubstitution(Unit):
+    """graphs are generated / augmented with the MINIMAL delay of a trainable connection (so that every delay in [min, max] can be realised by looking further back)"""
+    name = "_generate_graphs (trainable connection -> minimal delay)"
+    target = ART + "::_generate_graphs"
+    props = ("C10", "C12")
+
+    def run(self, ctx):
+        ex = ctx.ex
+        made = {}
+        ex.lib.ns["distrax"].entries["Deterministic"] = lambda ex_, loc=None: Rec("distrax.Distribution", dict(id=z3.Const("det", Leaf), loc=loc, sample=lambda ex2, sample_shape=(), seed=None: loc), module=None, frozen=True)
+        a = Rec("BaseNode", dict(name="a", rate=z3.Real("a.rate"), delay_dist=mk_static_dist("a.comp"), phase=z3.Real("a.phase"), outputs={}, inputs={}, advance=False, scheduling=aw.SCHED["FREQUENCY"]), module=None)
+        b = Rec("BaseNode", dict(name="b", rate=z3.Real("b.rate"), delay_dist=mk_static_dist("b.comp"), phase=z3.Real("b.phase"), outputs={}, inputs={}, advance=False, scheduling=aw.SCHED["FREQUENCY"]), module=None)
+        tmin, tmax, alpha = z3.Real("t.min"), z3.Real("t.max"), z3.Real("t.alpha")
+        ex.assume(z3.And(0 <= tmin, tmin < tmax, 0 <= alpha, alpha <= 1))
+        tdist = Rec("TrainableDist", dict(alpha=alpha, min=tmin, max=tmax, interp="zoh"), module=BASE, frozen=True)
+        c = Rec("Connection", dict(output_node=a, input_node=b, delay_dist=tdist, blocking=False, skip=False, jitter=aw.JIT["LATEST"], window=1), module=None)
+        a.f["outputs"]["b"] = c
+        b.f["inputs"]["a"] = c
+
+        def vmap(ex_, fn, **k):
+            raise Captured(fn)
+        ex.lib.ns["jax"].entries["vmap"] = vmap
+        try:
+            ctx.call(kwargs=dict(nodes={"a": a, "b": b}, rng=z3.Const("rng", Leaf), num_episodes=z3.Int("num_episodes"), ts_max=z3.Real("ts_max_arg")))
+        except Captured as cap:
+            env = cap.fn.env_chain[0]
+        else:
+            ctx.ensure("reaches the episode function", z3.BoolVal(False))
+            return
+        d = env["communication_delays"].get(("a", "b"))
+        ok = isinstance(d, Rec) and d.cls == "StaticDist" and isinstance(d.f.get("dist"), Rec) and "loc" in d.f["dist"].f
+        ctx.ensure("the trainable connection is replaced by a static deterministic delay for graph generation", z3.BoolVal(ok))
+        if ok:
+            ctx.ensure("C10 that delay is the distribution's minimum (not its current value)", toz(d.f["dist"].f["loc"]) == tmin)
+
+
 class NodeStep(Unit):
     name = "_generate_graphs.step"
     target = ART + "::_generate_graphs.step"
@@ -222,7 +258,7 @@ class VertexSpacing(Unit):
                    z3.And(toz(v1["seq"]) == z3.If(toz(v1["ts_end"]) > z3.Real("ts_max_eps"), -1, z3.Int("i0")), toz(v2["seq"]) == z3.If(toz(v2["ts_end"]) > z3.Real("ts_max_eps"), -1, z3.Int("i0") + 1)))
 
 
-UNITS = [NodeStep(), VertexSpacing(), EdgeAssign(), AugmentFrame()]
+UNITS = [NodeStep(), VertexSpacing(), EdgeAssign(), AugmentFrame(), MinimalDelaySubstitution()]
 EXTRA = dict(assumptions=["jax.lax.scan / vmap fold and batch the verified bodies (assumed); acyclicity follows from time order (vertex after its predecessor, edge to a step starting at/after arrival): written argument",
                           "the scan carry of the edge assignment assumes arrivals in send order; with jittery communication delays a message can be overtaken and is then assigned one step late "
                           "(confirmed on the real code in the design phase; recorded in DESIGN 7 as an observation - the per-call obligations proved here are conditional on the carry)"])
